@@ -42,7 +42,7 @@ import (
 //   `C13/<engine>-node/<probe>-<what>`; anything else keeps a generic signature and fails the run.
 
 func init() {
-	core.Register(&core.Check{ID: "C13", Run: runC13, Replay: replayC13})
+	core.Register(&core.Check{ID: "C13", Run: runC13, Replay: replayC13, After: core.GenTrimCache})
 }
 
 const c13SigCompile = "C13/generated-code-does-not-compile"
